@@ -6,7 +6,7 @@ from sa.shapes import consumption, flat, Shaper
 from sa.cfg import cfg_of
 from sa import guards
 from sa.spec import resolution as spec
-from .common import analysis, R_NAMES, K_NAMES, tokens, names_in
+from .common import analysis, R_NAMES, K_NAMES, tokens, names_in, assigned_values
 from .c01 import check_shapes
 
 PROP = "C08"
@@ -215,6 +215,46 @@ def run(ctx):
         ctx.check("C08.R6", f"{f.qualname}: first acceptance of a reader-union branch requires the same type", exact, f.where(first), f"{f.qualname}: {norm(test) if test is not None else norm(first)}", "a reader-union branch reachable only by promotion can be chosen although a branch of the writer's own type exists (writer int, reader ['double','int'] gives 5.0)")
     if n_sel < 1:
         raise AnalysisError("no reader-union selection site found")
+
+    ctx.rule("C08.R8", "match_schemas decides every combination of {inline definition, reference by name} on the writer and the reader side by comparing like with like (names with names, definitions with definitions)", floor=4)
+    ms = p.func("_read_py:match_schemas")
+    wS, rS = ms.pos_params[0], ms.pos_params[1]
+    KINDS = ("record", "enum", "fixed", "error")
+    consts = {}
+    for nm in names_in(ms.node):
+        v = p.try_fold(ms.mod, ast.Name(id=nm, ctx=ast.Load()), None)
+        if isinstance(v, (set, frozenset, tuple, list)) and all(isinstance(x, str) for x in v):
+            consts[nm] = sorted(v)
+    forms = {"inline": {"type": "record", "name": "ns.X", "fields": [], "aliases": []}, "reference": "ns.X"}
+    for wf, wv in forms.items():
+        for rf, rv in forms.items():
+            env = dict(consts)
+            env[wS], env[rS] = wv, rv
+            out = guards.run_chain(ms.node.body, env)
+            inst = f"match_schemas: writer {wf} / reader {rf}"
+            if out[0] == "raise":
+                ctx.violation("C08.R8", inst + " is resolved", ms.where(out[1]), f"match_schemas: writer {wf}, reader {rf} -> raises unconditionally", "a named type defined inline on one side and referred to by name on the other is rejected although the specification matches named types by name wherever they appear")
+                continue
+            node = out[1]
+            calls = [c for c in ast.walk(node)] if node is not None else []
+            mts = [c for c in calls if isinstance(c, ast.Call) and isinstance(c.func, ast.Name) and c.func.id == "match_types" and len(c.args) >= 2]
+            if out[0] == "unknown" and mts:
+                env_at = guards.LAST["env"]
+                bad = []
+                for c in mts:
+                    for arg in c.args[:2]:
+                        v = guards.value_of(arg, env_at)
+                        if isinstance(v, str) and v in KINDS:
+                            bad.append((c, arg))
+                if bad:
+                    c, arg = bad[0]
+                    ctx.violation("C08.R8", inst + " is decided by comparing like with like", ms.where(c), f"match_schemas: writer {wf}, reader {rf} -> {norm(c)[:70]} where `{norm(arg)}` is the kind word of an inline definition", "an inline definition's kind ('record', 'enum', ...) is looked up as if it were a type name: a named type defined inline on one side and referred to by name on the other never matches (e.g. a record defined at its first use by the writer and, because the reader lists its fields in another order, referred to by name at that position by the reader)")
+                else:
+                    ctx.holds("C08.R8", inst + " is decided by comparing like with like", ms.where(mts[0]))
+            elif out[0] in ("unknown", "return"):
+                ctx.holds("C08.R8", inst + " is decided by comparing like with like", ms.where(node) if node is not None else ms.where())
+            else:
+                ctx.unrecognised("C08.R8", inst, ms.where(), f"outcome {out[0]}")
 
     ctx.rule("C08.R7", "the reader schema is dropped (set to None) only at the named top-level sites and under their conditions; below the top level it is only resolved (match_schemas) or passed on", floor=4)
     reader_drop_discipline(ctx, a, "C08.R7")
